@@ -1,7 +1,7 @@
-// Unit C12 - reaching definitions (lib/analysis/reaching_definitions.rs) and the use-def / def-use chains
-// (lib/analysis/{use_def,def_use}.rs) cover every execution: LocationSet as the subset lattice, the read / write
-// lists of the IL, the gen/kill transfer function as an instance of unit C09's trait contract, the solver's
-// contract instantiated, the concretisation gamma with L-AI, precision from leastness, and the chain contracts.
+// Unit C14 - dead-code elimination (lib/analysis/dead_code_elimination.rs) only replaces operations by no-ops and
+// the result is observationally equivalent to its input: the FRAME and KILL-SET contracts on the real function
+// (reaching definitions / def-use chains imported from unit C12, the solver from C09), and, at spec level, an
+// abstract small-step semantics with the simulation theorem "a killed definition is never observed".
 // Generated file = this template + the real text of the items named in the `//@` holes.
 #![feature(allocator_api)]
 #![allow(unused_imports, unused_variables, dead_code, unused_mut, non_snake_case, unused_parens, unused_braces, deprecated)]
@@ -57,8 +57,10 @@ use vstd::std_specs::iter::IteratorSpec;
 //@ mode contracts-only C18
 //@ include units/C18/loc_core.rs
 //@ include units/C18/loc_proofs.rs
-//@ mode full
+//@ mode contracts-only C12
 //@ include units/C12/il_rw.rs
+//@ mode full
+//@ include units/C14/il_mut.rs
 proof fn vf_canary_il() ensures false {}
 } // mod il
 
@@ -100,7 +102,9 @@ use std::cmp::{Ordering, PartialEq, PartialOrd};
 use std::collections::HashSet;
 use vstd::std_specs::iter::IteratorSpec;
 broadcast use {location_hash::axiom_program_location_obeys_key_model, vstd::std_specs::hash::axiom_random_state_builds_valid_hashers};
+//@ mode contracts-only C12
 //@ include units/C12/location_set.rs
+//@ mode full
 proof fn vf_canary_location_set() ensures false {}
 } // mod location_set
 pub use self::location_set::LocationSet;
@@ -119,10 +123,12 @@ use self::fixed_point::*;
 use std::collections::HashMap;
 use vstd::std_specs::iter::IteratorSpec;
 broadcast use {location_hash::axiom_program_location_obeys_key_model, vstd::std_specs::hash::axiom_random_state_builds_valid_hashers};
+//@ mode contracts-only C12
 //@ include units/C12/rd_spec.rs
 //@ include units/C12/rd_analysis.rs
 //@ include units/C12/rd_theory.rs
 //@ include units/C12/rd_chains.rs
+//@ mode full
 proof fn vf_canary_reaching_definitions() ensures false {}
 } // mod reaching_definitions
 pub use self::reaching_definitions::reaching_definitions;
@@ -140,7 +146,9 @@ use super::reaching_definitions::fixed_point::*;
 use std::collections::HashMap;
 use vstd::std_specs::iter::IteratorSpec;
 broadcast use {location_hash::axiom_program_location_obeys_key_model, vstd::std_specs::hash::axiom_random_state_builds_valid_hashers};
+//@ mode contracts-only C12
 //@ include units/C12/use_def.rs
+//@ mode full
 proof fn vf_canary_use_def() ensures false {}
 } // mod use_def
 pub use self::use_def::use_def;
@@ -158,10 +166,32 @@ use super::reaching_definitions::fixed_point::*;
 use std::collections::HashMap;
 use vstd::std_specs::iter::IteratorSpec;
 broadcast use {location_hash::axiom_program_location_obeys_key_model, vstd::std_specs::hash::axiom_random_state_builds_valid_hashers};
+//@ mode contracts-only C12
 //@ include units/C12/def_use.rs
+//@ mode full
 proof fn vf_canary_def_use() ensures false {}
 } // mod def_use
 pub use self::def_use::def_use;
+
+// analysis::dead_code_elimination
+pub mod dead_code_elimination {
+use super::super::*;
+use super::super::il;
+use super::super::il::Loc;
+use super::super::graph;
+use super::LocationSet;
+use super::{def_use, reaching_definitions};
+use super::reaching_definitions::*;
+use super::reaching_definitions::fixed_point::*;
+use std::collections::{HashMap, HashSet};
+use vstd::std_specs::iter::IteratorSpec;
+broadcast use {location_hash::axiom_program_location_obeys_key_model, location_hash::axiom_function_location_obeys_key_model, vstd::std_specs::hash::axiom_random_state_builds_valid_hashers};
+//@ include units/C14/dce_spec.rs
+//@ include units/C14/dce_fn.rs
+//@ include units/C14/dce_theory.rs
+proof fn vf_canary_dead_code_elimination() ensures false {}
+} // mod dead_code_elimination
+pub use self::dead_code_elimination::dead_code_elimination;
 
 } // mod analysis
 
